@@ -38,8 +38,8 @@ def MC_RUNS(quick):
     """(spec module, cfg, constants, pure?)"""
     runs = [("MCGF2m", "MCGF2m_small", "PURE lib/GF2m (no accelerator) vs a native-integer reference + field axioms: every "
                                        "operand pair of GF(8), GF(16), GF(32); irreducibility vs trial division below 300", True),
-            ("MCGF2m", "MCGF2m", "ACCELERATED lib/GF2m (GF2m.class) against the same statements: every operand pair of "
-                                 "GF(2^m), m = 3,4,5,7,8,9; irreducibility of every polynomial below 600", False),
+            ("MCGF2m", "MCGF2m_q", "ACCELERATED lib/GF2m (GF2m.class) against the same statements: every operand pair of "
+                                   "GF(2^m), m = 3,4,5,7; irreducibility of every polynomial below 600", False),
             ("MCBinCurve", "MCBinCurve", "the definition (lib/BinCurve) is a group law: every curve y^2+xy=x^3+ax^2+b over "
                                          "GF(8), GF(16): all triples associative, the order-two point, halving, Koblitz Frobenius", False),
             ("FbLow", "FbLow", "fb_muln_low (Lopez-Dahab comb, 4-bit window), fb_mul1_low, fb_rdcn_low, fb_rdc1_low as coded, "
@@ -49,7 +49,7 @@ def MC_RUNS(quick):
                                    "EVERY double-length value of degree <= 2m-2 against GModPoly", False)]
     if not quick:
         runs += [("MCGF2m", "MCGF2m", "PURE lib/GF2m: every operand pair of GF(2^m), m = 3,4,5,7,8,9", True),
-                 ("MCGF2m", "MCGF2m_full", "ACCELERATED: every operand pair for 12 field polynomials up to degree 10", False),
+                 ("MCGF2m", "MCGF2m", "ACCELERATED: every operand pair of GF(2^m), m = 3,4,5,7,8,9", False),
                  ("MCBinCurve", "MCBinCurve_m5", "every curve over GF(8), GF(16) (second polynomials) and GF(32)", False),
                  ("FbLow", "FbLow_w8full", "comb multiplication, 8-bit digits: every 2-digit a x 16 operands b, 14 single digits", False),
                  ("FbLow", "FbLow_full", "fast reduction, 4-bit digits: 19 trinomials / pentanomials of degree 9..11, every "
@@ -90,16 +90,17 @@ def wide_crosscheck(ev, wd, rng, quick):
     ops.append("GInv(%s, F)" % seq(rng.getrandbits(m if quick else 61)))
     d = os.path.join(wd, "wide")
     os.makedirs(d, exist_ok=True)
-    body = "\n".join('ASSUME PrintT(<<"@@", %d, %s>>)' % (i, o) for i, o in enumerate(ops))
+    body = "\n".join('ASSUME PrintT(<<"@@", %d, ToString(%s)>>)' % (i, o) for i, o in enumerate(ops))
     open(os.path.join(d, "WideGF2m.tla"), "w").write(
         "---- MODULE WideGF2m ----\nEXTENDS GF2m, TLC\nF == %s\n%s\nVARIABLE x\nInit == x = 0\nNext == x' = x\n====\n" % (seq(f), body))
     open(os.path.join(d, "WideGF2m.cfg"), "w").write("INIT Init\nNEXT Next\nCHECK_DEADLOCK FALSE\n")
     res = []
     for pure in (False, True):
         r = core.tlc(os.path.join(d, "WideGF2m.tla"), os.path.join(d, "WideGF2m.cfg"), pure=pure, workers=1, timeout=1200)
-        if not r.ok or len(r.prints) < len(ops):
+        got = dict((int(i), re.sub(r"\s+", "", v)) for i, v in re.findall(r'<<\s*"@@",\s*(\d+),\s*"([^"]*)"\s*>>', r.out))
+        if not r.ok or len(got) < len(ops):
             raise core.InfraError("wide cross-check did not run (pure=%s):\n%s" % (pure, r.out[-2000:]))
-        res.append([re.sub(r"\s+", "", p) for p in r.prints])
+        res.append([got[i] for i in range(len(ops))])
         ev.add_mc("WideGF2m-%s" % ("pure" if pure else "accelerated"), r, "%d operations at %d bits" % (len(ops), m))
     if res[0] != res[1]:
         raise core.InfraError("GF2m accelerator and pure definitions disagree on a wide sample:\n%s\n%s" % (res[0], res[1]))
